@@ -29,5 +29,5 @@ TNext == l <= Len(Ev) /\ Step(Ev[l]) /\ l' = l + 1 /\ UNCHANGED tid
 TNoEnd == -99
 TConfigs == {}
 TSpec == TInit /\ [][TNext]_tvars
-Reporter == Report(tid, l, Len(Ev))
+Reporter == TraceReport(tid, l, Len(Ev))
 =============================================================================
